@@ -103,6 +103,7 @@ class _Stmts(ast.NodeTransformer):
     visit_AsyncFunctionDef = visit_Lambda = visit_ClassDef = visit_FunctionDef
 
     list_names = frozenset()     # locals known to be python lists in this function
+    empty_started = frozenset()  # those of them with an assignment `name = []`
     list_attrs = frozenset()     # attributes of self known to be python lists (set in __init__)
 
     def visit_AugAssign(self, node):
@@ -146,6 +147,12 @@ class _Stmts(ast.NodeTransformer):
                 (self._is_list_ref(v.func.value) or isinstance(v.func.value, (ast.Name, ast.Attribute))):
             self.changed = True
             return self._appends(v.func.value, v.args[0].elts, node)
+        # P and f(..)  as a statement  ->  if P: f(..)          (P or f(..)  ->  if not P: f(..))
+        if isinstance(v, ast.BoolOp) and len(v.values) == 2 and isinstance(v.values[1], ast.Call):
+            self.changed = True
+            test = v.values[0] if isinstance(v.op, ast.And) else ast.UnaryOp(op=ast.Not(), operand=v.values[0])
+            body = ast.copy_location(ast.Expr(value=v.values[1]), node)
+            return ast.copy_location(ast.If(test=test, body=_flat([self.visit(body)]), orelse=[]), node)
         r = self._split_ifexp(node, node.value, lambda val: ast.copy_location(ast.Expr(value=val), node))
         return r if r is not None else node
 
@@ -192,6 +199,14 @@ class _Stmts(ast.NodeTransformer):
                     not any(isinstance(e, ast.Starred) for e in v.right.elts):
                 self.changed = True
                 return self._appends(t, v.right.elts, node)
+            # lst = [a]  where lst is a local list that another statement starts empty (`lst = []`):
+            # a fresh list with these elements  ->  lst = [] ; lst.append(a)   (one spelling of "a goes into lst")
+            if isinstance(t, ast.Name) and t.id in self.list_names and t.id in self.empty_started and \
+                    isinstance(v, ast.List) and 1 <= len(v.elts) <= 4 and \
+                    not any(isinstance(e, ast.Starred) for e in v.elts):
+                self.changed = True
+                first = ast.copy_location(ast.Assign(targets=[t], value=ast.List(elts=[], ctx=ast.Load())), node)
+                return [first] + self._appends(t, v.elts, node)
             # lst[len(lst):] = [a, b]  ->  appends
             if isinstance(t, ast.Subscript) and isinstance(t.slice, ast.Slice) and t.slice.upper is None and \
                     t.slice.step is None and isinstance(t.slice.lower, ast.Call) and \
@@ -235,9 +250,19 @@ class _Stmts(ast.NodeTransformer):
             ok = True
             stored = set()
             for i, (t, v) in enumerate(zip(ts, vs)):
-                if i and (_names(v) & stored or any(isinstance(x, ast.Attribute) for x in ast.walk(t)) and
-                          any(isinstance(x, ast.Attribute) and x.attr in _attrs_stored(ts[:i]) for x in ast.walk(v))):
+                if i and _names(v) & stored:
                     ok = False
+                elif i and any(isinstance(x, ast.Attribute) for x in ast.walk(t)):
+                    # a value that reads an attribute an earlier pair stored could see the new value -- unless that
+                    # earlier pair stored this very attribute read (P.a = Q.a writes Q.a's own value even when P is Q)
+                    for x in ast.walk(v):
+                        if isinstance(x, ast.Attribute) and x.attr in _attrs_stored(ts[:i]):
+                            for tj, vj in zip(ts[:i], vs[:i]):
+                                if isinstance(tj, ast.Attribute) and tj.attr == x.attr and \
+                                        ast.unparse(vj) != ast.unparse(x):
+                                    ok = False
+                                elif not isinstance(tj, (ast.Attribute, ast.Name)):
+                                    ok = False
                 stored |= _names(t)
             # a value that reads an attribute stored by an earlier pair would see the new value
             if ok:
@@ -519,6 +544,10 @@ def normalize_function(fn, resolver=None, list_attrs=frozenset(), consts=None, c
     # N1-N3
     st = _Stmts()
     st.list_names = _list_locals(new)
+    st.empty_started = frozenset(
+        n.targets[0].id for n in _walk_scope(new)
+        if isinstance(n, ast.Assign) and len(n.targets) == 1 and isinstance(n.targets[0], ast.Name) and
+        isinstance(n.value, ast.List) and not n.value.elts)
     st.list_attrs = list_attrs
     new.body = _flat([st.visit(s) for s in new.body])
     changed |= st.changed
@@ -959,6 +988,19 @@ class _Exprs(ast.NodeTransformer):
         return node
 
     visit_AsyncFunctionDef = visit_Lambda = visit_ClassDef = visit_FunctionDef
+
+    def visit_Compare(self, node):
+        self.generic_visit(node)
+        # 0 == x.ub  ->  x.ub == 0  (also outside tests: element-wise comparisons mirror exactly)
+        if len(node.ops) == 1 and isinstance(node.left, ast.Constant) and \
+                not isinstance(node.comparators[0], ast.Constant):
+            mir = {ast.Eq: ast.Eq, ast.NotEq: ast.NotEq, ast.Lt: ast.Gt, ast.Gt: ast.Lt, ast.LtE: ast.GtE,
+                   ast.GtE: ast.LtE}.get(type(node.ops[0]))
+            if mir is not None:
+                self.changed = True
+                return ast.copy_location(ast.Compare(left=node.comparators[0], ops=[mir()], comparators=[node.left]),
+                                         node)
+        return node
 
     def visit_UnaryOp(self, node):
         self.generic_visit(node)
